@@ -39,6 +39,23 @@ def build(repo="/repo", release=False):
     return os.path.join(TARGET, "release" if release else "debug", "rac")
 
 
+def build_cli(repo="/repo"):
+    """The real `any` binary of the repository's working tree (src/bin/any.rs), built into /verif/.build (never into /repo/target)."""
+    env = dict(os.environ, CARGO_TARGET_DIR=TARGET, CARGO_NET_OFFLINE="true")
+    p = subprocess.run(["cargo", "build", "--offline", "--quiet", "--bin", "any", "--manifest-path", os.path.join(repo, "Cargo.toml")], env=env, capture_output=True, text=True)
+    if p.returncode != 0:
+        raise HarnessError("building the `any` binary failed:\n" + p.stderr[-3000:])
+    return os.path.join(TARGET, "debug", "any")
+
+
+def run_cli(binary, data_home, args, timeout=60):
+    """stdout (ANSI escapes removed), exit status"""
+    env = dict(os.environ, HOME=data_home, XDG_DATA_HOME=data_home, NO_COLOR="1", TERM="dumb")
+    env.pop("RUST_LOG", None)
+    p = subprocess.run([binary] + args, env=env, capture_output=True, text=True, timeout=timeout)
+    return re.sub(r"\x1b\[[0-9;]*m", "", p.stdout), p.returncode, p.stderr
+
+
 class Rac:
     def __init__(self, repo="/repo", release=False, data_home=None):
         self.bin = build(repo, release)
